@@ -198,6 +198,15 @@ def apiOp (op : String) (args : List String) : Option String :=
       | .err e => s!"err:{e.name} {res.p}"
       | .herr _ => "herr"
       | _ => "panic")
+  | "FieldFloat", [d, key, st] => do
+    -- HandleObjectValues with the field-selective ReadFloat64 handler on a Buffer whose stack slice is `st`
+    let d ← hexToBytes d; let key ← hexToBytes key; let st ← parseStack st
+    let res := (runA Gen.HandleObjectValues.machine d (fieldFloatH key) garbageHavoc st #[] none).1
+    pure (match res.kind with
+      | .ok => s!"ok {match res.hs with | some v => toString v | none => "-"} {res.p}"
+      | .err e => s!"err:{e.name} {res.p}"
+      | .herr _ => "herr"
+      | _ => "panic")
   | "StdTree", [d] => do
     -- ReadValue, then the StdLibCompatible helper that fits the value's kind
     let d ← hexToBytes d
